@@ -125,11 +125,15 @@ mod tree_store;
 mod tuple_types;
 mod types;
 
+#[cfg(redb_verif)]
+mod verif_types;
+
 /// Verification hooks, compiled only with `--cfg redb_verif`
 #[cfg(redb_verif)]
 pub mod verif {
     pub use crate::tree_store::page_store_verif::*;
     pub use crate::tree_store::verif::*;
+    pub use crate::verif_types::*;
 }
 
 // core cannot tell whether the current thread is unwinding, and redb's Drop impls consult that in
